@@ -7,7 +7,7 @@ Open Scope string_scope.
 
 Definition pur_cfg : pcfg := {| shadow_checked := purity_shadow_checked; global_stmt_checked := purity_global_stmt_checked; gloads_checked := purity_gloads_checked |}.
 Lemma C06_cfg_ok : pcfg_ok pur_cfg /\ purity_check_shape_ok = true /\ remote_exec_shape_ok = true /\
-  init_popen_ops = canon_ops /\ init_popen_io_built_on_saved_fds = true /\ send_dumps_before_write = true /\ chan_close_shape_ok = true.
+  init_popen_ops = canon_ops /\ init_popen_io_built_on_saved_fds = true /\ send_dumps_before_write = true /\ chan_close_shape_ok = true /\ chan_errortext_ok = true.
 Proof. repeat split; reflexivity. Qed.
 
 (* purity: for every function description that satisfies what the compiler guarantees (global lookups come from Name
